@@ -14,10 +14,11 @@ shape("sast_regex_apply_loop", "src/codemodder/codemods/regex_transformer.py", [
        "SastRegexTransformerPipeline._apply", "SastRegexTransformerPipeline.apply", "SastRegexTransformerPipeline._apply_regex"],
       doc="SastRegexTransformerPipeline._apply / line_matches_result / report_unfixed (apply and _apply_regex inherited)")
 
-shape("regex_apply_guards", "src/codemodder/codemods/regex_transformer.py", ["C19"],
-      "regex_apply_shape", "as_written", "AsWritten",
+shape("regex_apply_isolation", "src/codemodder/codemods/regex_transformer.py", ["C19"],
+      "regex_apply_isolation", "regex_isolation", "TryReadTransform",
       ["RegexTransformerPipeline.apply"],
-      doc="RegexTransformerPipeline.apply: read+splitlines(keepends), `if not changes: return None`, create_diff, "
+      doc="RegexTransformerPipeline.apply: read+decode+splitlines(keepends) and self._apply(...) bare (NoTry) or each inside "
+          "try/except Exception: add_failure + return None (TryReadTransform); `if not changes: return None`, create_diff, "
           "`if not context.dry_run: write_bytes(''.join(updated_lines))`")
 
 shape("pipes_filecontext", "src/codemodder/file_context.py", ["C19"],
@@ -47,7 +48,8 @@ shape("xml_newelement_transformer", "src/codemodder/codemods/xml_transformer.py"
       doc="NewElementXMLTransformer.endElement / add_new_element: children appended before the end tag of every parent_name element")
 
 shape("xml_pipeline_apply", "src/codemodder/codemods/xml_transformer.py", ["C19"],
-      "xml_pipeline_diff_guard", "xml_diff_guard", "DiffGuard",
+      "xml_pipeline_diff_guard", "xml_diff_guard", "DiffGuardRereadTry",
       ["XMLTransformerPipeline.__init__", "XMLTransformerPipeline.apply"],
       doc="XMLTransformerPipeline.apply: TemporaryFile('w+'), defusedxml make_parser, failure => add_failure + None, "
-          "`if not changes`, create_diff, dry_run guard around write_bytes")
+          "`if not changes`, UTF-8 re-read of the original (bare / in try: add_failure + None), create_diff (`if not diff: return None` or not), "
+          "dry_run guard around write_bytes")
